@@ -23,6 +23,7 @@ SLOTS = {
     "pos": "G(F) | 0\n", "pos2": "G(1, F) | 0\n", "kw": "G(k=F) | 0\n", "pos+kw": "G(F, k=F) | [0, 1]\n",
     "scalar": "float x = F\nG(x) | 0\n", "scalar-expr": "float x = F\nG(2*x+1, k=x) | 0\nH(x*x) | 1\n",
     "loop": "for int i in 1:3\n    G(F, i) | i\n", "loopvar": "for int i in 1:3\n    G(i*(F)) | i\n", "looplist": "for float t in [0.5, 2]\n    G(t+F, k=F) | 0\n",
+    "loopvar-from-0": "for int i in 0:3\n    G(i*(F), k=(F)*i) | i\n", "zero-coefficient": "int k = 0\nG(k*(F), F) | 0\nH(2, z=(F)*k) | 1\n",
     "twoops": "G(F) | 0\nMeasureX | 0\nH(F, 2) | 1\n", "after-decl": "int n = 2\nfloat array B =\n    1, 2\nG(n*(F)+B[1]) | n\n",
 }
 SLOTS_T = {"list": "G(k=[F, 1]) | 0\n", "list2": "G(1, k=[2, F], l=[F]) | 0\n"}
@@ -181,7 +182,7 @@ def array_cases(ctx):
                     vv = {nm: vals[(i + 1) % len(vals)] * (1 + i) for i, nm in enumerate(names)}
                     out.append((src, vv, names))
     for t, (r, c) in itertools.product(("float", "complex", "int"), ((1, 1), (1, 2), (2, 2), (2, 3), (3, 1))):
-        for use in ("G(A[%d]) | 0" % (r * c - 1), "G(A) | 0", "G(k=A) | 0", "G(2*A[0]+1, {a}) | 0"):
+        for use in ("G(%s) | 0" % ", ".join("A[%d]" % k for k in range(r * c)), "G(A) | 0", "G(k=A) | 0", "G(2*A[0]+1, {a}) | 0"):
             src = "%s array A[%d, %d] =\n    {P}\n%s\n" % (t, r, c, use)
             base = {"float": 0.5, "complex": 0.5 + 1j, "int": 2}[t]
             arr = [[(base * (1 + i * c + j) if t != "int" else 2 + i * c + j) for j in range(c)] for i in range(r)]
